@@ -7,7 +7,7 @@ Import ListNotations.
 
 Definition ev_op (e : ev) : opid :=
   match e with
-  | EIssue o | ELockn o | EReq _ o _ | EAcq _ o _ | ERel _ o _ | ETimeout o | EDone o => o
+  | EIssue o | ELockn o _ | EReq _ o _ | EAcq _ o _ | ERel _ o _ | ETimeout o | EDone o => o
   end.
 
 Ltac own_contra HS o Eo :=
@@ -19,7 +19,7 @@ Lemma step_frame cfg s e s' :
   (forall o, o <> ev_op e -> op_of s' o = op_of s o) /\
   (forall n o b, o <> ev_op e -> lock_of s n = Some (o, b) -> lock_of s' n = Some (o, b)).
 Proof.
-  intros HC HS ST. destruct e as [o'|o'|n' o' r|n' o' r|n' o' was|o'|o']; simpl in *.
+  intros HC HS ST. destruct e as [o'|o' rs|n' o' r|n' o' r|n' o' was|o'|o']; simpl in *.
   - destruct (op_of s o') eqn:Eo; try discriminate.
     pose proof (disciplined_kind cfg o' HC) as D.
     destruct (kind_of cfg o'); simpl in D; try discriminate; inv ST;
@@ -60,7 +60,7 @@ Lemma waiting_blocked cfg s e s' o held n p r x :
   op_of s o = SRun held (AAcq n :: p) (Some r) -> lock_of s n = Some x ->
   step cfg s e = Some s' -> ev_op e <> o.
 Proof.
-  intros HC HS Eo El ST Heq. destruct e as [o'|o'|n' o' r'|n' o' r'|n' o' was|o'|o']; simpl in *; subst o'.
+  intros HC HS Eo El ST Heq. destruct e as [o'|o' rs|n' o' r'|n' o' r'|n' o' was|o'|o']; simpl in *; subst o'.
   - rewrite Eo in ST. discriminate.
   - pose proof (disciplined_kind cfg o HC) as D. destruct (kind_of cfg o); simpl in D; discriminate.
   - rewrite (own_orph _ HS) in ST. simpl in ST. rewrite Eo in ST. discriminate.
